@@ -24,6 +24,7 @@ import (
 	"fmt"
 	"math"
 	"os"
+	"os/exec"
 	"runtime"
 	"sort"
 	"strconv"
@@ -319,6 +320,47 @@ func runOne(c string) (out string) {
 	return fmt.Sprintf("OK bad=%d mrecv=%d erecv=%d%s ### %s%s", res.BadLines, mrecv, res.EventsReceived, first, strings.Join(alone, " ; "), alias)
 }
 
+// rcvOne (child process, see rcv.go): does the case's datagram parse to the same thing when it comes
+// through the real receiver and is held while the receiver reads on?
+func rcvOne(c string) (out string) {
+	defer func() {
+		if e := recover(); e != nil {
+			out = fmt.Sprintf("diff PANIC %v", e)
+		}
+	}()
+	toks := hx.Tokens(c)
+	if len(toks) < 6 {
+		return "skip"
+	}
+	ns := hx.MustUnS(toks[0])
+	ignoreHost := toks[1] == "1"
+	ip := hx.MustUnS(toks[3])
+	ts, _ := strconv.ParseInt(toks[4], 10, 64)
+	dg := []byte(hx.MustUnS(toks[len(toks)-1]))
+	if len(dg) > 60000 {
+		return "skip"
+	}
+	before := time.Now().Unix()
+	render := func(mm *gostatsd.MetricMap, evs []*gostatsd.Event) string {
+		return renderEvents(evs, before, time.Now().Unix()+1) + " || " + renderMap(mm, nil)
+	}
+	var direct string
+	res := dgrun.Run(ns, ignoreHost, []dgrun.Dg{{IP: ip, Ts: ts, Msg: append([]byte(nil), dg...)}}, func(mm *gostatsd.MetricMap, evs []*gostatsd.Event) {
+		direct = render(mm, evs)
+	})
+	if res.Panic != "" || res.Hang {
+		return "skip" // the main run reports it
+	}
+	via, problem := viaReceiver(ns, ignoreHost, ip, ts, dg, render)
+	if problem != "" {
+		return "diff " + problem
+	}
+	if via != direct {
+		return "diff"
+	}
+	return "same"
+}
+
 func lexLine(buf []byte, ns string) (m *gostatsd.Metric, e *gostatsd.Event, errName string) {
 	defer func() {
 		if r := recover(); r != nil {
@@ -337,11 +379,31 @@ func main() {
 	switch os.Args[1] {
 	case "gen":
 		gen(os.Args[2:])
+	case "rcv":
+		rcvMain()
 	case "run":
-		hx.Lines(func(line string) {
-			fmt.Fprintln(hx.Out, runOne(line))
+		var lines []string
+		hx.Lines(func(line string) { lines = append(lines, line) })
+		// receiver mode for all cases in one child process with a single P and no garbage collection
+		rcv := make([]string, len(lines))
+		exe, _ := os.Executable()
+		child := exec.Command(exe, "rcv")
+		child.Env = append(os.Environ(), "GOMAXPROCS=1", "GOGC=off")
+		child.Stdin = strings.NewReader(strings.Join(lines, "\n") + "\n")
+		if outB, err := child.Output(); err == nil {
+			got := strings.Split(strings.TrimRight(string(outB), "\n"), "\n")
+			if len(got) == len(lines) {
+				rcv = got
+			}
+		}
+		for i, line := range lines {
+			o := runOne(line)
+			if strings.HasPrefix(rcv[i], "diff") && strings.HasPrefix(o, "OK ") {
+				o += " RCVALIAS receiver-buffer-overwritten " + strings.TrimPrefix(rcv[i], "diff")
+			}
+			fmt.Fprintln(hx.Out, o)
 			hx.Out.Flush()
-		})
+		}
 		hx.Out.Flush()
 	case "mk": // c05 mk NS IGNOREHOST "go-quoted datagram" ...
 		for _, q := range os.Args[4:] {
